@@ -275,6 +275,15 @@ class RLock(Lock):
 class ThreadingShim:
     Thread, Event, Lock, RLock = Thread, Event, Lock, RLock
 
+    @staticmethod
+    def current_thread():
+        me = SCHED.me()
+        return type("LT", (), {"name": me.name, "ident": id(me), "daemon": True, "is_alive": staticmethod(lambda: True)})()
+
+    @staticmethod
+    def get_ident():
+        return id(SCHED.me())
+
 
 # ---------------------------------------------------------------------------------- queue
 class Empty(Exception):
@@ -305,14 +314,83 @@ class Queue:
     def qsize(self):
         return len(self.items)
 
+    def empty(self):
+        return not self.items
+
+    def put_nowait(self, item):
+        return self.put(item, block=False)
+
+    def get_nowait(self):
+        if not self.items:
+            raise Empty()
+        return self.get(block=False)
+
+    def task_done(self):
+        pass
+
 
 class QueueShim:
     Queue, Empty = Queue, Empty
 
 
 # ---------------------------------------------------------------------------------- executor
-class Future:
+class CancelledError(Exception):
     pass
+
+
+class Future:
+    """enough of concurrent.futures.Future for code that looks at the outcome of a submitted task"""
+
+    def __init__(self):
+        self._done = False
+        self._cancelled = False
+        self._result = None
+        self._exc = None
+        self._cbs = []
+
+    def _finish(self, result=None, exc=None):
+        self._result, self._exc, self._done = result, exc, True
+        for cb in self._cbs:
+            try:
+                cb(self)
+            except Exception as e:
+                SCHED.event("future-callback-exception", type(e).__name__)
+
+    def done(self):
+        return self._done or self._cancelled
+
+    def cancelled(self):
+        return self._cancelled
+
+    def running(self):
+        return not self.done()
+
+    def cancel(self):
+        return self._cancelled
+
+    def _wait(self, timeout):
+        if not self.done():
+            SCHED.park(("future-wait",), cond=self.done, deadline=None if timeout is None else round(SCHED.clock + timeout, 6))
+        if self._cancelled:
+            raise CancelledError()
+        if not self._done:
+            raise TimeoutError()
+
+    def result(self, timeout=None):
+        self._wait(timeout)
+        if self._exc is not None:
+            raise self._exc
+        return self._result
+
+    def exception(self, timeout=None):
+        self._wait(timeout)
+        return self._exc
+
+    def add_done_callback(self, fn):
+        if self.done():
+            fn(self)
+        else:
+            self._cbs.append(fn)
 
 
 class ThreadPoolExecutor:
@@ -338,11 +416,14 @@ class ThreadPoolExecutor:
         k = self.count
         ex = self
 
+        fut = Future()
+
         def body():
             try:
-                fn(*args, **kwargs)
+                fut._finish(result=fn(*args, **kwargs))
             except Exception as e:      # a Future swallows the exception
                 SCHED.event("task-exception", "T%d" % k, type(e).__name__, str(e)[:120])
+                fut._finish(exc=e)
         name = "T%d" % k
         self.workq.append(name)
         lt = SCHED.spawn(name, body, kind="task")
@@ -350,8 +431,9 @@ class ThreadPoolExecutor:
         lt.op = ("task-start", name)
         lt.meta["fn"] = fn
         lt.meta["executor"] = ex
+        lt.meta["future"] = fut
         SCHED.event("submit", name)
-        return Future()
+        return fut
 
     def shutdown(self, wait=True, *, cancel_futures=False):
         self.shut = True
@@ -362,6 +444,7 @@ class ThreadPoolExecutor:
                 if lt is not None and not lt.started:
                     lt.cond = lambda: False
                     lt.meta["cancelled"] = True
+                    lt.meta["future"]._cancelled = True
                     self.cancelled += 1
                     SCHED.event("task-cancelled", name)
             self.workq.clear()
